@@ -20,25 +20,34 @@ import json
 STREAMS = ['dispatch-random', 'dispatch-lookup-grid', 'dispatch-deferred', 'dispatch-builtin']
 THEOREMS = [
     'at_most_one_reply', 'exactly_one_if_expected', 'none_if_no_reply_and_dispatched',
-    'reply_addressing', 'runs_iff', 'lookup_failure_reply', 'result_encoding',
-    'error_reply_name', 'unencodable_value_one_error', 'prefix_model_violates_exactly_one',
-    'table_shape',
+    'reply_addressing', 'runs_iff', 'lookup_failure_reply', 'unbound_reply', 'asks_for_caller_iff',
+    'source_send_error_total', 'result_encoding', 'error_reply_name', 'unencodable_value_one_error',
+    'prefix_model_violates_exactly_one', 'unbound_witness', 'unexport_witness', 'table_shape',
 ]
 TRUSTED_BASE = [
     'Python attribute lookup along __mro__, dict order of class __dict__, inspect.getfullargspec, '
-    'Twisted Deferred/maybeDeferred/Failure.getErrorMessage (mirrored in Obj/Dispatch.lean, validated by the streams)',
-    'MethodReturnMessage(...) raising or not for a given body/signature (wire codec, C01/C02) and '
-    'marshal.validateErrorName (C18) enter the model as parameters; the harness evaluates them on the real code',
-    'ErrorMessage(name, serial, body=[text], signature="s", destination=sender) does not raise for a valid '
-    'error name, a valid sender and a text without NUL (validated by the streams)',
+    'Twisted Deferred/maybeDeferred (incl. coroutines)/Failure.getErrorMessage (mirrored in Obj/Dispatch.lean, '
+    'validated by the streams)',
+    'MethodReturnMessage(...) raising or not for a given body/signature (wire codec, C01/C02), building the '
+    'GetManagedObjects reply raising or not (C16/C17) and marshal.validateErrorName (C18) enter the model as '
+    'parameters; the harness evaluates them on the real code',
+    'every other message the dispatcher builds marshals: ErrorMessage for a valid error name, a valid sender and a '
+    'text without NUL - that covers send_error after its escape AND the four _send_err texts (UnknownObject / '
+    'UnknownMethod / InvalidArgs with path, member, signature, interface of the parsed call; the C10-02 text '
+    '`str(e)`, which is NOT escaped) - and the Ping / Introspect replies (validated by the streams, not in Lean)',
 ]
 ASSUMPTIONS = [
     'the sender field of an incoming call is a valid bus name or absent (the bus fills it in)',
-    'a function found in a class __dict__ has __name__ equal to its attribute name (no aliasing)',
+    'a function found in a class __dict__ has __name__ equal to its attribute name (no aliasing); dbus_<m> '
+    'attributes are functions (a non-function or staticmethod dbus_<m> is outside the model)',
     'exception texts and error names are sequences of Unicode scalar values in the correspondence streams '
-    '(lone surrogates are exercised against the oracle only)',
-    'user methods are ordinary functions (no staticmethod/classmethod/coroutine), their Deferreds are fired '
-    'by user code at most once effectively (Twisted raises AlreadyCalledError on a second firing)',
+    '(lone surrogates are exercised against the oracle only); str(e) does not raise',
+    'a Deferred is returned by one call only and fired by user code at most once effectively (Twisted raises '
+    'AlreadyCalledError on a second firing; the same Deferred returned by two calls chains their callbacks)',
+    'user code does not re-enter the dispatcher or change the class attributes after the first dispatch',
+    'the no-reply flag of a parsed call is what the caller marshalled: parseMessage restoring it is C03\'s '
+    '(known_findings C03 parse-ignores-flags); here every call travels as bytes through parseMessage with all '
+    'eight values of the low flag bits, and the monitor judges against the flag the caller set',
     'org.freedesktop.DBus.Properties calls are C17\'s, the XML / managed-object bodies are C16\'s',
 ]
 RULE = ('scenarios (declarations x exported objects x history of calls and Deferred resolutions) generated from '
@@ -437,9 +446,27 @@ def make_func(rec, name, fid, deco, wants, arity=None, shape=None):
     f.__name__ = name
     f.__qualname__ = name
     f._fid = fid
+    f._spec_deco = tuple(deco) if deco is not None else None     # what the declaration SAYS (harness-side truth)
     if deco is not None:
-        f = objects.dbusMethod(deco[0], deco[1])(f)      # the real decorator
+        g = objects.dbusMethod(deco[0], deco[1])(f)      # the real decorator
+        if g is not f:                                   # a decorator that wraps must keep our bookkeeping
+            for a in ('_fid', '_spec_deco'):
+                try:
+                    setattr(g, a, getattr(f, a))
+                except Exception:
+                    pass
+        f = g
     return f
+
+
+def deco_of(f):
+    """(interface, member) a function is declared for with @dbusMethod: from the scenario's
+    declaration for harness-built functions, from the attributes for the library's own ones."""
+    if hasattr(f, '_spec_deco'):
+        return f._spec_deco
+    if hasattr(f, '_dbusInterface'):
+        return (f._dbusInterface, f._dbusMethod)
+    return None
 
 
 class Built:
@@ -526,8 +553,9 @@ class Built:
                 pos = code.co_varnames[:code.co_argcount]       # positional parameter names, self included
                 fid = getattr(f, '_fid', 9000 + sum(map(ord, n)) % 997)
                 toks += [str_hex(n), str(fid)]
-                if hasattr(f, '_dbusInterface'):
-                    toks += ['1', str_hex(f._dbusInterface), str_hex(f._dbusMethod)]
+                d2 = deco_of(f)
+                if d2 is not None:
+                    toks += ['1', str_hex(d2[0]), str_hex(d2[1])]
                 else:
                     toks.append('0')
                 toks += [str(len(pos))] + [str_hex(x) for x in pos]
@@ -704,14 +732,15 @@ def binding_candidates(obj, iname, member):
         if inspect.isfunction(f) and all(f is not g for g in out):
             out.append(f)
     m = getattr(obj, 'dbus_' + member, None)
-    if m is not None and not (hasattr(m, '_dbusInterface') and m._dbusInterface != iname):
-        add(m)
+    if m is not None:
+        d = deco_of(getattr(m, '__func__', m))
+        if d is None or d[0] == iname:
+            add(m)
     for k in type(obj).__mro__:
         if k is object:
             continue
         for n, f in vars(k).items():
-            if inspect.isfunction(f) and getattr(f, '_dbusInterface', None) == iname \
-                    and getattr(f, '_dbusMethod', None) == member:
+            if inspect.isfunction(f) and deco_of(f) == (iname, member):
                 add(f)
                 add(getattr(obj, n))
     return out
@@ -766,7 +795,7 @@ def expected_of(built, op):
     f = fs[0]
     return {'v': 'run', 'fid': getattr(f, '_fid', None), 'wants': wants_caller(f),
             'sig_out': sig_out, 'iface': iname,
-            'style': 'decorator' if hasattr(f, '_dbusInterface') else 'dbus_name'}
+            'style': 'decorator' if deco_of(f) is not None else 'dbus_name'}
 
 
 LOOKUP_ERRORS = {'unknown-object': 'org.freedesktop.DBus.Error.UnknownObject',
@@ -998,7 +1027,9 @@ class Scenario:
                 continue
             w = e[2]
             if isinstance(w, Exception):
-                self.problem('reply-unparseable', 'the bytes of a message sent while handling a call do not parse: %r' % (w,), cr)
+                self.problem('reply-unparseable', 'the bytes of the reply do not parse (%r): the body on the wire does not match the '
+                             'signature in its header - the caller receives no usable reply' % (w,), cr,
+                             self.impl_lines[-1] if self.impl_lines else None, 'one well-formed reply')
                 continue
             if not isinstance(w, (message.MethodReturnMessage, message.ErrorMessage)):
                 self.problem('non-reply-sent', 'the dispatcher sent a %s while handling a call' % type(w).__name__, cr)
@@ -1069,6 +1100,8 @@ class Scenario:
             return
         if len(replies) == 0 and getattr(cr, 'raised', False):
             return          # reported as dispatcher-raised-no-reply
+        if len(replies) == 0 and any(e[0] == 'sent' and isinstance(e[2], Exception) for e in events):
+            return          # reported as reply-unparseable
         if len(replies) == 0:
             oc = cr.outcome
             if dispatched and oc['kind'] in EXC_KINDS and bad_text_key(oc['exc']):
@@ -1099,6 +1132,8 @@ class Scenario:
                 self.problem('reply-to-noreply-call', 'the Deferred of a NO_REPLY_EXPECTED call fired and a reply was sent', cr)
             return
         if cr.resolved is res:      # the first firing
+            if len(replies_now) == 0 and any(e[0] == 'sent' and isinstance(e[2], Exception) for e in events):
+                return      # reported as reply-unparseable
             if len(replies_now) == 0:
                 if res['kind'] == 'fail' and bad_text_key(res['exc']):
                     self.problem(bad_text_key(res['exc']), 'the Deferred failed with an exception whose text is not '
@@ -1382,6 +1417,14 @@ def judge(ctx, stream, sc, model_out=None):
         outs = model_out[sc.n_prefix:]
         for k, (m, i) in enumerate(zip(outs, sc.impl_lines)):
             if m != i:
+                op = spec['ops'][k]
+                tk = op['k'] if op['op'] == 'resolve' else k
+                tcr = sc.calls.get(tk)
+                if tcr is not None and tcr.exp['v'] == 'ambiguous':
+                    # the statement leaves the tie-break open; the model mirrors the code's present
+                    # choice, another choice is not a broken obligation
+                    ctx.stat('tie-break differs from the model (%s)' % tcr.exp['why'])
+                    continue
                 red = reduce_spec(spec, k)
                 ctx.disagree(stream, {'scenario': red if red is not None else spec, 'op_index': k,
                                       'model_line': sc.model_lines[sc.n_prefix + k]}, m, i)
@@ -1442,20 +1485,20 @@ def run(ctx):
         run_batch(ctx, data.get('stream', 'dispatch-random'), [spec], with_model=not data.get('oracle_only', False))
         ctx.stat('corpus')
     # random scenarios
-    n = ctx.scale(quick=1000, thorough=12000)
+    n = ctx.scale(quick=800, thorough=12000)
     run_batch(ctx, 'dispatch-random', [gen_scenario(rng, n_ops=rng.randrange(3, 9)) for _ in range(n)])
     # lookup grid (complete in the thorough tier)
-    limit = None if (ctx.tier == 'thorough' or ctx.widen) else 1500
+    limit = None if (ctx.tier == 'thorough' or ctx.widen) else 1200
     specs, ncomb = grid_scenarios(rng, limit)
     run_batch(ctx, 'dispatch-lookup-grid', specs)
     ctx.stat('grid-combinations', ncomb)
     # Deferred-heavy histories
-    n = ctx.scale(quick=350, thorough=5000)
+    n = ctx.scale(quick=280, thorough=5000)
     run_batch(ctx, 'dispatch-deferred',
               [gen_scenario(rng, n_ops=rng.randrange(4, 14), deferred_bias=0.35) for _ in range(n)])
     # calls the handler answers itself, on trees whose objects carry a property (some with a stored
     # value that cannot be marshalled)
-    n = ctx.scale(quick=150, thorough=2000)
+    n = ctx.scale(quick=120, thorough=2000)
     run_batch(ctx, 'dispatch-builtin',
               [gen_scenario(rng, n_ops=rng.randrange(3, 8), props=True, builtin_bias=0.7) for _ in range(n)])
     # oracle only: exception texts with lone surrogates (not representable as Lean `Char`)
